@@ -935,5 +935,5 @@ def generate(ctx):
     r = anchors.build(REPO, "C08", ["DPL.Model.PlanModels"], anchors.c08_specs(), opens="")
     ctx.count("formula_anchors", r["obligations"])
     if r["errors"]:
-        r["error"] = "; ".join(r["errors"])
+        r["unavailable"] = r["errors"]      # anchors that could not be located / translated (not failed obligations)
     return r
